@@ -29,7 +29,17 @@ func (r rule12) text() string {
 	return r.pattern
 }
 
-func norm12(s string) string { return strings.ToLower(strings.TrimSuffix(s, ".")) }
+// norm12: "lower-cased and stripped of one trailing dot", byte by byte (ASCII names): the 26 upper-case
+// letters and nothing else change.
+func norm12(s string) string {
+	b := []byte(strings.TrimSuffix(s, "."))
+	for i, c := range b {
+		if 'A' <= c && c <= 'Z' {
+			b[i] = c + ('a' - 'A')
+		}
+	}
+	return string(b)
+}
 
 // describes: the property's own definition, written without the trie.
 func describes12(r rule12, re *regexp.Regexp, name string) bool {
@@ -48,8 +58,26 @@ func describes12(r rule12, re *regexp.Regexp, name string) bool {
 	return false
 }
 
+// byte classes a label is drawn from (never '.', the label separator, ':', the type separator, '#', the
+// comment sign of the text loader, or blanks): letters in both cases, digits, '-' and '_', the bytes right
+// next to the two letter ranges ('@' '[' and '`' '{'), the rest of the columns 0x5b..0x5f / 0x7b..0x7f
+// (each the other's image under a 0x20 bit flip), and other punctuation.
+var classes12 = []string{"abcxyz", "abcxyz", "ABCXYZ", "0189", "-_", "_", "@[`{", "\\]^|}~\x7f", "!$%&'()*+,/;<=>?\""}
+
 func (r *Run) label12() string {
 	words := []string{"example", "com", "net", "org", "a", "b", "www", "cdn", "mail", "x1", "co", "uk", "test", "ad", "ads", "tracker", "s3", "img-1", "xn--p1ai", "0"}
+	switch r.Rng.Intn(8) {
+	case 0: // service and other underscore labels
+		words = []string{"_tcp", "_udp", "_dmarc", "_domainkey", "_acme-challenge", "_sip", "a_b", "x_1", "img_cdn", "my-host_1", "_", "0_0", "ad_", "_ads"}
+	case 1: // any byte class
+		n := 1 + r.Rng.Intn(5)
+		b := make([]byte, n)
+		for i := range b {
+			c := classes12[r.Rng.Intn(len(classes12))]
+			b[i] = c[r.Rng.Intn(len(c))]
+		}
+		return string(b)
+	}
 	w := words[r.Rng.Intn(len(words))]
 	if r.Rng.Intn(6) == 0 {
 		w = strings.ToUpper(w[:1]) + w[1:]
@@ -65,19 +93,54 @@ func (r *Run) name12(n int) string {
 	return strings.Join(ls, ".")
 }
 
-func (r *Run) spell12(s string) string {
-	if r.Rng.Intn(4) == 0 {
-		s = strings.ToUpper(s)
-	} else if r.Rng.Intn(4) == 0 && len(s) > 0 {
-		b := []byte(s)
-		i := r.Rng.Intn(len(b))
-		b[i] = strings.ToUpper(string(b[i]))[0]
-		s = string(b)
+func upper12(c byte) byte {
+	if 'a' <= c && c <= 'z' {
+		return c - ('a' - 'A')
 	}
+	return c
+}
+
+// spell12: another spelling of the same name: all upper case, one letter, or every letter at random (the
+// 0x20 mixed-case encoding resolvers use), with or without a trailing dot. Only letters change.
+func (r *Run) spell12(s string) string {
+	b := []byte(s)
+	switch r.Rng.Intn(16) {
+	case 0, 1, 2, 3:
+		for i := range b {
+			b[i] = upper12(b[i])
+		}
+	case 4, 5, 6:
+		if len(b) > 0 {
+			i := r.Rng.Intn(len(b))
+			b[i] = upper12(b[i])
+		}
+	case 7, 8, 9:
+		for i := range b {
+			if r.Rng.Intn(2) == 0 {
+				b[i] = upper12(b[i])
+			}
+		}
+	}
+	s = string(b)
 	if r.Rng.Intn(3) == 0 {
 		s += "."
 	}
 	return s
+}
+
+// upperThenOther12: an upper-case letter with a non-letter, non-dot byte somewhere behind it.
+func upperThenOther12(s string) bool {
+	seen := false
+	for i := 0; i < len(s); i++ {
+		c := s[i]
+		switch {
+		case 'A' <= c && c <= 'Z':
+			seen = true
+		case seen && c != '.' && !('a' <= c && c <= 'z'):
+			return true
+		}
+	}
+	return false
 }
 
 func runC12(r *Run) {
@@ -95,7 +158,11 @@ func runC12(r *Run) {
 			case "regexp":
 				rl.pattern = regexps[r.Rng.Intn(len(regexps))]
 			case "keyword":
-				rl.pattern = r.spell12([]string{"ad", "example", "x", "cdn.", ".com", "a.b", "tracker", "mail"}[r.Rng.Intn(8)])
+				kw := []string{"ad", "example", "x", "cdn.", ".com", "a.b", "tracker", "mail", "_", "_tcp", "._d", "-1", "_ad"}
+				if r.Rng.Intn(6) == 0 {
+					kw = []string{r.label12()}
+				}
+				rl.pattern = r.spell12(kw[r.Rng.Intn(len(kw))])
 			default:
 				var base string
 				if len(bases) > 0 && r.Rng.Intn(2) == 0 {
@@ -159,165 +226,260 @@ func runC12(r *Run) {
 			names = names[:40]
 		}
 
-		// ---- implementation
-		mm := domain.NewMixMatcher[int]()
-		if dflt != "" {
-			mm.SetDefaultMatcher(dflt)
-		}
-		var loadErr error
-		viaText := r.Rng.Intn(2) == 0
-		if viaText {
-			var sb strings.Builder
-			sb.WriteString("# rules\n\n")
-			vals := map[string]int{}
-			for i, rl := range rules {
-				vals[rl.text()] = rl.val
-				switch i % 3 {
-				case 0:
-					sb.WriteString(rl.text() + "\n")
-				case 1:
-					sb.WriteString("  " + rl.text() + "  # trailing comment\n")
-				default:
-					sb.WriteString("\t" + rl.text() + "\r\n\n")
-				}
-			}
-			loadErr = domain.LoadFromTextReader[int](mm, strings.NewReader(sb.String()), func(s string) (string, int, error) { return s, vals[s], nil })
-		} else {
-			for _, rl := range rules {
-				if err := mm.Add(rl.text(), rl.val); err != nil {
-					loadErr = err
-					break
-				}
-			}
-		}
-		// ---- model line
-		var rs, ns, tbl []string
-		compiled := map[string]*regexp.Regexp{}
-		for _, rl := range rules {
-			rs = append(rs, fmt.Sprintf("%d=%s", rl.val, hx([]byte(rl.text()))))
-			if rl.kind == "regexp" {
-				compiled[rl.pattern] = regexp.MustCompile(rl.pattern)
-			}
-		}
-		seenT := map[string]bool{}
-		for _, nm := range names {
-			ns = append(ns, hx([]byte(nm)))
-			for e, re := range compiled {
-				k := hx([]byte(e)) + "@" + hx([]byte(norm12(nm)))
-				if re.MatchString(norm12(nm)) && !seenT[k] {
-					seenT[k] = true
-					tbl = append(tbl, k)
-				}
-			}
-		}
-		sort.Strings(tbl)
-		d := dflt
-		if d == "" {
-			d = "-"
-		}
-		tb := strings.Join(tbl, ";")
-		if tb == "" {
-			tb = "-"
-		}
-		line := fmt.Sprintf("mix %s %s %s %s", d, strings.Join(rs, ";"), strings.Join(ns, ";"), tb)
-		if loadErr != nil {
-			r.Line(line, "error")
-			r.Eval(line, true)
-			r.Count("load-error")
-			// is the error legitimate? only an unknown type or a rule without type and without default may be refused
-			legit := false
-			for _, rl := range rules {
-				if rl.kind == "suffix" || (!rl.prefix && dflt == "") {
-					legit = true
-				}
-			}
-			if !legit {
-				r.Fail("a valid rule set was rejected", map[string]any{"rules": rs, "err": loadErr.Error()})
-			}
+		r.case12(dflt, rules, names, r.Rng.Intn(2) == 0, "random")
+	}
+	// ---- every ASCII byte next to letters of either case. For each byte c (not '.', ':'): rules whose
+	// patterns hold c behind and in front of an upper-case letter, in a spelling of their own, a shorter
+	// domain rule, and rules for the "twin" name in which c is replaced by c^0x20 (for a letter that is the
+	// same name; for every other byte it is a different name that must not be captured: '_' / DEL,
+	// '@' / '`', '[' / '{', '-' / 0x0d, digits / control bytes ...); names: both names and their
+	// subdomains in several spellings. Loaded by Add (by the text loader too when c is printable and not
+	// '#'). The expected answers come from the same trie-free reference as above.
+	for c := 0; c < 128; c++ {
+		if c == '.' || c == ':' {
 			continue
 		}
-		var outs []string
-		nontrivial := false
-		for _, nm := range names {
-			v, ok := mm.Match(nm)
-			// reference answer
-			var full, dom, re, kw []rule12
-			for _, rl := range rules {
-				if describes12(rl, compiled[rl.pattern], nm) {
-					switch rl.kind {
-					case "full":
-						full = append(full, rl)
-					case "domain":
-						dom = append(dom, rl)
-					case "regexp":
-						re = append(re, rl)
-					case "keyword":
-						kw = append(kw, rl)
-					}
+		for rep := 0; rep < r.N(1, 6); rep++ {
+			tw := c ^ 0x20
+			if tw == '.' || tw == ':' {
+				tw = c
+			}
+			mk := func(b int) (string, string, string) {
+				return "h" + string([]byte{byte(b)}) + "st." + string([]byte{byte(b)}) + "svc.example.org", "full" + string([]byte{byte(b)}) + "x.example.org", "k" + string([]byte{byte(b)}) + "w"
+			}
+			d1, f1, k1 := mk(c)
+			d2, f2, k2 := mk(tw)
+			up := func(s string) string { // at least the first letter in upper case, the rest at random
+				b := []byte(r.spell12(s))
+				b[0] = upper12(b[0])
+				return string(b)
+			}
+			rules := []rule12{
+				{kind: "domain", pattern: "example.org", prefix: true, val: 1},
+				{kind: "domain", pattern: up(d1), prefix: true, val: 2},
+				{kind: "domain", pattern: r.spell12(d2), prefix: true, val: 3},
+				{kind: "full", pattern: up(f1), prefix: true, val: 4},
+				{kind: "full", pattern: r.spell12(f2), prefix: true, val: 5},
+				{kind: "keyword", pattern: up(k1), prefix: true, val: 6},
+			}
+			if r.Rng.Intn(2) == 0 {
+				rules[1], rules[2] = rules[2], rules[1]
+				rules[3], rules[4] = rules[4], rules[3]
+			}
+			dflt := "domain"
+			if r.Rng.Intn(2) == 0 {
+				rules[0].prefix = false
+			}
+			names := []string{d1, up(d1), "Www." + d1, up("x.y." + d1), d2, up(d2), up(d1[strings.IndexByte(d1, '.')+1:]), up(d2[strings.IndexByte(d2, '.')+1:]),
+				f1, up(f1), up(f2), up("sub." + f1), up("a." + k1 + ".net"), "A." + k2 + ".net", up(k1), "Host.example.org", "Hst." + string([]byte{byte(c)}) + "svc.example.net"}
+			for i := range names {
+				if r.Rng.Intn(3) == 0 {
+					names[i] = r.spell12(strings.TrimSuffix(names[i], "."))
 				}
 			}
-			lastFor := func(kind, pat string) int { // last Add for the same (normalised) rule wins
-				v := -1
-				for _, rl := range rules {
-					if rl.kind == kind && ((kind == "regexp" && rl.pattern == pat) || (kind != "regexp" && norm12(rl.pattern) == norm12(pat))) {
-						v = rl.val
-					}
-				}
-				return v
-			}
-			want := map[int]bool{}
-			switch {
-			case len(full) > 0:
-				want[lastFor("full", full[0].pattern)] = true
-			case len(dom) > 0:
-				best := dom[0]
-				for _, rl := range dom {
-					if len(norm12(rl.pattern)) > len(norm12(best.pattern)) {
-						best = rl
-					}
-				}
-				want[lastFor("domain", best.pattern)] = true
-			case len(re) > 0:
-				for _, rl := range re {
-					want[lastFor("regexp", rl.pattern)] = true
-				}
-			case len(kw) > 0:
-				for _, rl := range kw {
-					want[lastFor("keyword", rl.pattern)] = true
-				}
-			}
-			if ok {
-				outs = append(outs, fmt.Sprint(v))
-				nontrivial = true
-			} else {
-				outs = append(outs, "none")
-			}
-			if (len(want) == 0) == ok || (ok && !want[v]) {
-				var rt []string
-				for _, rl := range rules {
-					rt = append(rt, fmt.Sprintf("%s => %d", rl.text(), rl.val))
-				}
-				wl := []int{}
-				for k := range want {
-					wl = append(wl, k)
-				}
-				r.Fail(fmt.Sprintf("Match(%q) = (%d,%v) but the rules say %v", nm, v, ok, wl), map[string]any{"default_type": dflt, "rules": rt, "name": nm})
+			printable := c > 0x20 && c != '#' && tw > 0x20 && tw != '#' // DEL is not a blank to the text loader
+			r.case12(dflt, rules, names, printable && r.Rng.Intn(2) == 0, fmt.Sprintf("byte-next-to-letters 0x%02x", c))
+		}
+	}
+	// scanner and normalisation on their own: fixed shapes, every ASCII byte between letters of both cases,
+	// and random ASCII strings; the model's `norm` / `scan` (tied to the code by Refine.C12) must agree
+	probe := []string{"", ".", "a", "a.", "A.b.C.", "a..b", ".a", "..", "a.b.c.d.e", "xn--p1ai.", "UPPER.Case", "Host._tcp.Example.COM.", "_sip._TCP.example.com", "A_b", "Z@[`{z."}
+	for c := 0; c < 128; c++ {
+		probe = append(probe, "aB"+string([]byte{byte(c)})+"Cd"+[]string{"", "."}[c%2])
+	}
+	for i := 0; i < r.N(100, 4000); i++ {
+		b := make([]byte, r.Rng.Intn(12))
+		for j := range b {
+			switch r.Rng.Intn(4) {
+			case 0:
+				b[j] = byte(r.Rng.Intn(128))
+			case 1:
+				b[j] = "AZMazm._-"[r.Rng.Intn(9)]
+			default:
+				c := classes12[r.Rng.Intn(len(classes12))]
+				b[j] = c[r.Rng.Intn(len(c))]
 			}
 		}
-		r.Line(line, strings.Join(outs, ";"))
-		r.Eval(line, nontrivial && len(rules) > 1)
-		r.Count("via-text:" + b01(viaText))
-		r.Count("default:" + d)
+		probe = append(probe, string(b))
 	}
-	// scanner and normalisation on their own
-	for _, s := range []string{"", ".", "a", "a.", "A.b.C.", "a..b", ".a", "..", "a.b.c.d.e", "xn--p1ai.", "UPPER.Case"} {
+	for _, s := range probe {
 		sc := domain.NewReverseDomainScanner(s)
 		var ls []string
 		for sc.Scan() {
 			ls = append(ls, hx([]byte(sc.NextLabel())))
 		}
-		r.Line("scan "+hx([]byte(s)), strings.Join(ls, ","))
-		r.Line("norm "+hx([]byte(s)), hx([]byte(domain.NormalizeDomain(s))))
+		if s != "" { // an empty last field is not a protocol line
+			r.Line("scan "+hx([]byte(s)), strings.Join(ls, ","))
+			r.Line("norm "+hx([]byte(s)), hx([]byte(domain.NormalizeDomain(s))))
+		}
 	}
-	r.Finish("rule sets of 1..9 rules over the four types (prefixed or relying on the set's default type), half of the domain/full patterns derived from earlier ones (duplicate, deeper with a value-less gap, parent, string-suffix-but-not-label-suffix), mixed case and trailing dots, loaded by Add or by the text loader with comments/blank lines; names derived from the rules (exact, sub-label, `not`+name, label glued on, parent, sibling) in random spelling; non-trivial = some name matched and at least 2 rules")
+	r.Finish("rule sets of 1..9 rules over the four types (prefixed or relying on the set's default type), half of the domain/full patterns derived from earlier ones (duplicate, deeper with a value-less gap, parent, string-suffix-but-not-label-suffix), labels from a word list, service labels with '_' and random labels over every byte class (letters of both cases, digits, '-', '_', the bytes around the letter ranges, other punctuation, DEL), spelled all upper case / one letter / every letter at random (0x20 style), with and without trailing dot, loaded by Add or by the text loader with comments/blank lines; names derived from the rules (exact, sub-label, `not`+name, label glued on, parent, sibling) in random spelling; a sweep over every ASCII byte c placed behind and in front of upper-case letters in domain/full/keyword rules and names, together with the twin name holding c^0x20 (same name for a letter, a different one otherwise); NormalizeDomain and the scanner on fixed shapes, every ASCII byte between letters and random ASCII strings against the model; expected answers from a trie-free reference whose normalisation changes the 26 upper-case letters only; non-trivial = some name matched and at least 2 rules")
+}
+
+// case12 loads one rule set into the real MixMatcher (by Add or through the text loader), asks it for every
+// name, compares each answer with the trie-free reference (describes12 over every rule, precedence
+// full > longest domain > regexp > keyword, last Add wins among equal rules) and emits the `mix` line the
+// model driver replays.
+func (r *Run) case12(dflt string, rules []rule12, names []string, viaText bool, tag string) {
+	// ---- implementation
+	mm := domain.NewMixMatcher[int]()
+	if dflt != "" {
+		mm.SetDefaultMatcher(dflt)
+	}
+	var loadErr error
+	if viaText {
+		var sb strings.Builder
+		sb.WriteString("# rules\n\n")
+		vals := map[string]int{}
+		for i, rl := range rules {
+			vals[rl.text()] = rl.val
+			switch i % 3 {
+			case 0:
+				sb.WriteString(rl.text() + "\n")
+			case 1:
+				sb.WriteString("  " + rl.text() + "  # trailing comment\n")
+			default:
+				sb.WriteString("\t" + rl.text() + "\r\n\n")
+			}
+		}
+		loadErr = domain.LoadFromTextReader[int](mm, strings.NewReader(sb.String()), func(s string) (string, int, error) { return s, vals[s], nil })
+	} else {
+		for _, rl := range rules {
+			if err := mm.Add(rl.text(), rl.val); err != nil {
+				loadErr = err
+				break
+			}
+		}
+	}
+	// ---- model line
+	var rs, ns, tbl []string
+	compiled := map[string]*regexp.Regexp{}
+	for _, rl := range rules {
+		rs = append(rs, fmt.Sprintf("%d=%s", rl.val, hx([]byte(rl.text()))))
+		if rl.kind == "regexp" {
+			compiled[rl.pattern] = regexp.MustCompile(rl.pattern)
+		}
+	}
+	seenT := map[string]bool{}
+	for _, nm := range names {
+		ns = append(ns, hx([]byte(nm)))
+		for e, re := range compiled {
+			k := hx([]byte(e)) + "@" + hx([]byte(norm12(nm)))
+			if re.MatchString(norm12(nm)) && !seenT[k] {
+				seenT[k] = true
+				tbl = append(tbl, k)
+			}
+		}
+	}
+	sort.Strings(tbl)
+	d := dflt
+	if d == "" {
+		d = "-"
+	}
+	tb := strings.Join(tbl, ";")
+	if tb == "" {
+		tb = "-"
+	}
+	line := fmt.Sprintf("mix %s %s %s %s", d, strings.Join(rs, ";"), strings.Join(ns, ";"), tb)
+	if loadErr != nil {
+		r.Line(line, "error")
+		r.Eval(line, true)
+		r.Count("load-error")
+		// is the error legitimate? only an unknown type or a rule without type and without default may be refused
+		legit := false
+		for _, rl := range rules {
+			if rl.kind == "suffix" || (!rl.prefix && dflt == "") {
+				legit = true
+			}
+		}
+		if !legit {
+			r.Fail("a valid rule set was rejected", map[string]any{"scenario": tag, "rules": rs, "err": loadErr.Error()})
+		}
+		return
+	}
+	var outs []string
+	nontrivial := false
+	for _, nm := range names {
+		v, ok := mm.Match(nm)
+		// reference answer
+		var full, dom, re, kw []rule12
+		for _, rl := range rules {
+			if describes12(rl, compiled[rl.pattern], nm) {
+				switch rl.kind {
+				case "full":
+					full = append(full, rl)
+				case "domain":
+					dom = append(dom, rl)
+				case "regexp":
+					re = append(re, rl)
+				case "keyword":
+					kw = append(kw, rl)
+				}
+			}
+		}
+		lastFor := func(kind, pat string) int { // last Add for the same (normalised) rule wins
+			v := -1
+			for _, rl := range rules {
+				if rl.kind == kind && ((kind == "regexp" && rl.pattern == pat) || (kind != "regexp" && norm12(rl.pattern) == norm12(pat))) {
+					v = rl.val
+				}
+			}
+			return v
+		}
+		want := map[int]bool{}
+		switch {
+		case len(full) > 0:
+			want[lastFor("full", full[0].pattern)] = true
+		case len(dom) > 0:
+			best := dom[0]
+			for _, rl := range dom {
+				if len(norm12(rl.pattern)) > len(norm12(best.pattern)) {
+					best = rl
+				}
+			}
+			want[lastFor("domain", best.pattern)] = true
+		case len(re) > 0:
+			for _, rl := range re {
+				want[lastFor("regexp", rl.pattern)] = true
+			}
+		case len(kw) > 0:
+			for _, rl := range kw {
+				want[lastFor("keyword", rl.pattern)] = true
+			}
+		}
+		if ok {
+			outs = append(outs, fmt.Sprint(v))
+			nontrivial = true
+		} else {
+			outs = append(outs, "none")
+		}
+		if (len(want) == 0) == ok || (ok && !want[v]) {
+			var rt []string
+			for _, rl := range rules {
+				rt = append(rt, fmt.Sprintf("%s => %d", rl.text(), rl.val))
+			}
+			wl := []int{}
+			for k := range want {
+				wl = append(wl, k)
+			}
+			r.Fail(fmt.Sprintf("Match(%q) = (%d,%v) but the rules say %v", nm, v, ok, wl), map[string]any{"scenario": tag, "default_type": dflt, "via_text_loader": viaText, "rules": rt, "name": nm})
+		}
+	}
+	r.Line(line, strings.Join(outs, ";"))
+	r.Eval(line, nontrivial && len(rules) > 1)
+	r.Count("via-text:" + b01(viaText))
+	r.Count("default:" + d)
+	r.Count("scenario:" + strings.SplitN(tag, " ", 2)[0])
+	for _, rl := range rules {
+		if rl.kind != "regexp" && upperThenOther12(rl.pattern) {
+			r.Count("rule spelled with an upper-case letter before a non-letter byte")
+			break
+		}
+	}
+	for _, nm := range names {
+		if upperThenOther12(nm) {
+			r.Count("name spelled with an upper-case letter before a non-letter byte")
+			break
+		}
+	}
 }
